@@ -80,6 +80,9 @@ package didsubject
 
 //@ func (*SqlManager).transactionHelper
 //@   prop C13
+// while the managers are being asked to commit, every commit so far succeeded: a later success must not
+// overwrite an earlier failure, and no manager is asked after one has failed
+//@   loop @Commit invariant isNilIface(errManager)
 //@   call (MethodManager).Commit #1 requires [commit-only-after-the-documents-were-written-with-the-methods-own-change] isNilIface(ret(call (*gorm.DB).Transaction #1))
 //@        && arg(0) == manager && method in changes && same(arg(2), changes[method])
 //@   call (*gorm.DB).Transaction #2 requires [cleanup-always-follows-the-commits] isNilIface(ret(call (*gorm.DB).Transaction #1)) && arg(0) == r.DB
@@ -87,6 +90,36 @@ package didsubject
 //@   ensures [success-means-written-committed-and-cleaned-up] isNilIface(result) ==> isNilIface(ret(call (*gorm.DB).Transaction #1)) && did(call (*gorm.DB).Transaction #2) && isNilIface(ret(call (*gorm.DB).Transaction #2))
 //@        && (!did(call (MethodManager).Commit #1) || isNilIface(ret(call (MethodManager).Commit #1)))
 //@   ensures [a-failed-commit-is-reported] did(call (MethodManager).Commit #1) && !isNilIface(ret(call (MethodManager).Commit #1)) ==> !isNilIface(result)
+//@   ensures [the-cleanup-sees-the-failure] did(call (*gorm.DB).Transaction #2) && isNilIface(ret(call (*gorm.DB).Transaction #2)) ==> result == errManager
+
+// One operation, one change set: every change record an operation hands to transactionHelper carries the
+// SAME transaction id. That id is what makes the records of the subject's DIDs one unit - the clean-up
+// deletes the records of one id, and the sweep keeps or undoes the versions of one id together.
+//@ func (*SqlDIDManager).FindBySubject
+//@   trusted
+//@   benign
+//@ func (*SqlDIDDocumentManager).Latest
+//@   trusted
+//@   benign
+//@   ensures isNilIface(result.1) ==> result.0 != nil
+//@ func did.ParseDID
+//@   trusted
+//@   benign
+//@   ensures isNilIface(result.1) ==> result.0 != nil
+//@ func (*SqlManager).applyToDIDDocuments$1
+//@   prop C13
+//@   loop 1 invariant forall m string :: m in eventLog ==> eventLog[m].TransactionID == ret(call (uuid.UUID).String #1)
+//@   call mapupdate #1 requires [record-describes-the-version-just-written] arg(0) == eventLog && arg(2).DIDDocumentVersionID == next.ID && arg(2).Type == orm.DIDChangeUpdated
+//@        && next == ret(call (*SqlDIDDocumentManager).CreateOrUpdate #1).0 && isNilIface(ret(call (*SqlDIDDocumentManager).CreateOrUpdate #1).1)
+//@   ensures [one-transaction-id-for-all-dids-of-the-operation] isNilIface(result.1) ==> (forall a string :: (forall b string :: a in result.0 && b in result.0 ==> result.0[a].TransactionID == result.0[b].TransactionID))
+//@   ensures [any-failure-abandons-the-operation] (did(call (*SqlDIDDocumentManager).CreateOrUpdate #1) && !isNilIface(ret(call (*SqlDIDDocumentManager).CreateOrUpdate #1).1)) ==> !isNilIface(result.1)
+//@ func (*SqlManager).Deactivate$1
+//@   prop C13
+//@   loop 1 invariant forall m string :: m in changes ==> changes[m].TransactionID == ret(call (uuid.UUID).String #1)
+//@   call mapupdate #1 requires [record-describes-the-version-just-written] arg(0) == changes && arg(2).DIDDocumentVersionID == sqlDoc.ID && arg(2).Type == orm.DIDChangeDeactivated
+//@        && sqlDoc == ret(call (*SqlDIDDocumentManager).CreateOrUpdate #1).0 && isNilIface(ret(call (*SqlDIDDocumentManager).CreateOrUpdate #1).1)
+//@   ensures [one-transaction-id-for-all-dids-of-the-operation] isNilIface(result.1) ==> (forall a string :: (forall b string :: a in result.0 && b in result.0 ==> result.0[a].TransactionID == result.0[b].TransactionID))
+//@   ensures [any-failure-abandons-the-operation] (did(call (*SqlDIDDocumentManager).CreateOrUpdate #1) && !isNilIface(ret(call (*SqlDIDDocumentManager).CreateOrUpdate #1).1)) ==> !isNilIface(result.1)
 
 // Document versions of a DID are consecutive: the new version is the successor of the highest stored
 // version of this DID (-1 when there is none), read in the same transaction with "version desc",
